@@ -55,7 +55,9 @@ theorem destroy_releases_partial (lease : Bool) (as : List Act) (s : St) (hr : r
   have hgd := hi.dg hended
   have hheld : s.held = false := by
     rcases hd with hd | hd
-    · exact hi.skipRel hd
+    · rcases hi.skipRel hd with h | h
+      · exact h
+      · rw [hcb] at h; cases h     -- quiescent: the callback that owed the release has run
     · exact hi.doneRel hd
   refine ⟨hheld, ?_, hbooked⟩
   cases htm : s.timer with
@@ -91,6 +93,7 @@ theorem released_once (s s' : St) (a : Act) (hs : step s a = some s') (hg : s.g 
       | u0 => simp at hs; rw [← hs]; exact hh
       | u1 => simp only [hh] at hs; simp at hs; rw [← hs]
       | u2 => simp at hs; rw [← hs]; exact hh
+      | u2f => simp at hs; rw [← hs]; exact hh
 
 /-! ### K2 (known finding): the two windows the hypothesis `Clean` excludes -/
 
